@@ -223,5 +223,5 @@ pub fn run(s: &Session) {
         }
     }
     s.foreach("truncations-of-valid", fam, true, check);
-    s.forall("random-programs", s.pick(200_000, 5_000_000), case, check);
+    s.forall("random-programs", s.pick(1_500_000, 60_000_000), case, check);
 }
